@@ -210,16 +210,26 @@ def check_facade(rng, counters, classes):
     rrv = rng.choice(['1.09', '1.12'])
     iso = pycdlib.PyCdlib()
     iso.new(interchange_level=level, rock_ridge=rrv)
+    reopened = level == 4 and rng.random() < 0.4
+    if reopened:
+        # an ISO9660:1999 image that was mastered and opened again is still a level 4 image
+        o0 = io.BytesIO()
+        iso.write_fp(o0)
+        iso.close()
+        iso = pycdlib.PyCdlib()
+        iso.open_fp(io.BytesIO(o0.getvalue()))
     rr = iso.get_rock_ridge_facade()
     names = []
     base = gen_name(rng)
     coll = rng.random() < 0.4
+    plain_names = ['readme%d.txt' % rng.randint(0, 99), 'notes.%d' % rng.randint(0, 9)] if level == 4 else []
     for k in range(rng.randint(1, 4)):
         n = (base[:12] + '%d' % k + base[12:]) if coll else gen_name(rng)
         n = n.replace('/', '_')
         if n in names or n in ('.', '..'):
             continue
         names.append(n)
+    names = plain_names + names
     added = {}
     for k, n in enumerate(names):
         data = ('content-%d-%s' % (k, n)).encode('utf-8')
@@ -240,13 +250,23 @@ def check_facade(rng, counters, classes):
                 vio.append({'key': 'facade:rr:wrong-entry', 'detail': 'level %d: reading %r returned %r' % (level, n, out.getvalue()[:40])})
         except Exception as e:
             vio.append({'key': 'facade:rr:read:%s' % type(e).__name__, 'detail': 'level %d get_file_from_iso_fp(rr_path=%r): %s' % (level, n, e)})
+    if level == 4:
+        # names that are legal as they are at level 4 must have become the identifier unchanged
+        try:
+            idents = {c.file_identifier().decode('utf-8', 'replace') for c in iso.list_children(iso_path='/') if c is not None}
+            for n in plain_names:
+                if n in added and n not in idents and n + ';1' not in idents:
+                    vio.append({'key': 'facade:rr:level4-identity:plain-name%s' % (':reopened' if reopened else ''),
+                                'detail': 'level 4%s: the identifier derived for %r is none of %s' % (' (image opened again)' if reopened else '', n, sorted(idents)[:6])})
+        except Exception as e:
+            vio.append({'key': 'facade:rr:list:%s' % type(e).__name__, 'detail': str(e)})
     try:
         o = io.BytesIO()
         iso.write_fp(o)
     except Exception as e:
         vio.append({'key': 'facade:rr:write:%s' % type(e).__name__, 'detail': str(e)})
     iso.close()
-    classes.add((level, 'facade', 'collision' if coll else 'plain'))
+    classes.add((level, 'facade', ('collision' if coll else 'plain') + ('-reopened' if reopened else '')))
     return vio
 
 
@@ -259,9 +279,15 @@ def check_facade_twin(rng, counters, classes):
     from harness import env
     from harness.gen import Gen
     vio = []
-    which = rng.choice(['iso', 'joliet', 'udf'])
+    which = rng.choice(['iso', 'joliet', 'udf', 'iso-on-rr'])
     level = rng.choice([1, 3, 4])
     kw = {'interchange_level': level}
+    iso_on_rr = which == 'iso-on-rr'
+    if iso_on_rr:
+        # the ISO9660 facade on a Rock Ridge image derives the Rock Ridge names itself; the twin is
+        # the same program through the same facade on an image without Rock Ridge: no call may end
+        # differently because of a derived name
+        which = 'iso'
     if which == 'joliet':
         kw['joliet'] = 3
     if which == 'udf':
@@ -272,7 +298,13 @@ def check_facade_twin(rng, counters, classes):
 
     def name(isdir):
         if which == 'iso':
-            return g.iso_dir_name(level) if isdir else g.iso_file_name(level)
+            for _ in range(20):
+                nm = g.iso_dir_name(level) if isdir else g.iso_file_name(level)
+                # (with Rock Ridge an identifier near the record limit leaves no room for the
+                # Rock Ridge entries: a legitimate refusal that the plain twin does not have)
+                if not iso_on_rr or len(nm.encode('utf-8')) <= 90:
+                    return nm
+            return 'N%d' % g._u() + ('' if isdir else '.;1')
         return g.uni_name() if which == 'joliet' else g.udf_name()
     # the program: generated once, replayed twice
     prog = []
@@ -312,7 +344,11 @@ def check_facade_twin(rng, counters, classes):
     def run(use_facade):
         env.reset(seed)
         iso = pycdlib.PyCdlib()
-        iso.new(**kw)
+        if iso_on_rr:
+            iso.new(**dict(kw, **({'rock_ridge': '1.09'} if use_facade else {})))
+            use_facade = True
+        else:
+            iso.new(**kw)
         fac = {'iso': iso.get_iso9660_facade, 'joliet': iso.get_joliet_facade, 'udf': iso.get_udf_facade}[which]() if use_facade else None
         log = []
         keep = []
@@ -361,8 +397,11 @@ def check_facade_twin(rng, counters, classes):
             vio.append({'key': 'facade:%s:%s:differs' % (which, prog[k_][0]), 'detail': 'level %d step %d %r: keyword API %r, facade %r' % (level, k_, prog[k_][:2], a, b)})
             break
     else:
-        if ia != ib:
+        if ia != ib and not iso_on_rr:
             vio.append({'key': 'facade:%s:image-differs' % which, 'detail': 'level %d: %d steps, images differ (%s)' % (level, len(prog), 'lengths %d/%d' % (len(ia), len(ib)) if isinstance(ia, bytes) and isinstance(ib, bytes) else (ia if not isinstance(ia, bytes) else ib))})
+    if iso_on_rr:
+        which = 'iso-on-rr'
+        vio = [dict(v, key=v['key'].replace('facade:iso:', 'facade:iso-on-rr:')) for v in vio]
     classes.add((level, 'facade-twin', which))
     return vio
 
